@@ -17,10 +17,19 @@
 (*                (correct listing, but a group shared k times at d levels is    *)
 (*                loaded k^d times)                                              *)
 (*   "memo"       groups on the current path are refused (a cycle), a group that *)
-(*                was loaded completely is not loaded again: its members are     *)
-(*                shared (the repaired code)                                    *)
-(* TLC: "memo" satisfies Complete and LoadsLinear on every graph; "visited"      *)
-(* violates Complete on the smallest diamond; "inprogress" violates LoadsLinear. *)
+(*                was loaded completely is not loaded again: the listing found   *)
+(*                below it the first time is shared (a first repair: complete    *)
+(*                without cycles, but what is shared was cut where the FIRST     *)
+(*                path closed a cycle - CompleteAlways fails on a cycle that is   *)
+(*                entered from two sides)                                        *)
+(*   "graph"      every group is loaded once into a shared graph (a link back to  *)
+(*                a group being loaded is completed when that load ends); the     *)
+(*                listing is the unfolding of the graph by Walk, which does not   *)
+(*                enter a group that is already on its path (the repaired code)   *)
+(* TLC: "graph" satisfies CompleteAlways and LoadsLinear on every graph, cycles   *)
+(* included; "memo" satisfies Complete (acyclic) but not CompleteAlways;          *)
+(* "visited" violates Complete on the smallest diamond; "inprogress" violates     *)
+(* LoadsLinear.                                                                  *)
 EXTENDS Integers, Sequences, FiniteSets
 
 CONSTANTS Nodes, MaxOut, Policy
@@ -77,10 +86,12 @@ Step ==
                 p == Append(top.path, <<top.n, top.i>>)
                 adv == [stack EXCEPT ![Len(stack)].i = top.i + 1]
             IN
-            IF OnPath(t)                                   \* a cycle: listed, never followed (all policies)
+            IF OnPath(t) /\ Policy # "graph"                \* a cycle: listed, never followed
             THEN /\ listed' = listed \cup {p} /\ stack' = adv /\ UNCHANGED <<links, done, entered, loads, rel, status>>
             ELSE IF Policy = "visited" /\ t \in entered      \* met again: no members
             THEN /\ listed' = listed \cup {p} /\ stack' = adv /\ UNCHANGED <<links, done, entered, loads, rel, status>>
+            ELSE IF Policy = "graph" /\ t \in entered       \* in the graph already (loaded, or being loaded): an edge, no load
+            THEN /\ stack' = adv /\ UNCHANGED <<links, done, entered, listed, loads, rel, status>>
             ELSE IF Policy = "memo" /\ t \in done            \* loaded before: members shared, nothing loaded
             THEN /\ listed' = listed \cup {p \o q : q \in rel[t]}
                  /\ stack' = adv /\ UNCHANGED <<links, done, entered, loads, rel, status>>
@@ -88,8 +99,11 @@ Step ==
                  /\ stack' = Append(adv, [n |-> t, i |-> 1, path |-> p])
                  /\ entered' = entered \cup {t} /\ loads' = loads + 1
                  /\ UNCHANGED <<links, done, rel, status>>
+\* "graph": the listing is what Walk produces from the loaded graph - the unfolding that refuses a group on its own path.
+\* Only groups that were loaded are in the graph.
 Finish == /\ status = "walking" /\ stack = <<>> /\ status' = "done"
-          /\ UNCHANGED <<links, stack, done, entered, listed, loads, rel>>
+          /\ listed' = IF Policy = "graph" THEN PathsFrom(Root, <<>>, {Root}) ELSE listed
+          /\ UNCHANGED <<links, stack, done, entered, loads, rel>>
 Next == Step \/ Finish
 Spec == Init /\ [][Next]_vars /\ WF_vars(Next)
 
@@ -97,6 +111,9 @@ TypeOK == status \in {"walking", "done"} /\ loads >= 1
 \* without cycles every path of the file is listed; with cycles any finite listing is a truncation, and which
 \* truncation is not specified - but every listed path exists
 Complete == (status = "done" /\ Acyclic) => listed = AllPaths
+CompleteAlways == status = "done" => listed = AllPaths
+\* "graph": every group that can be reached was loaded (so that the unfolding at Finish ranges over the real links)
+AllLoaded == (status = "done" /\ Policy = "graph") => entered = Reach({Root}, {Root})
 Sound == \A p \in listed : RealPath(p)
 LoadsLinear == loads <= Cardinality(Nodes)
 Terminates == <>(status = "done")
